@@ -77,6 +77,7 @@ func genC07(c *RunCtx) []*Batch {
 	}
 	nExpr := c.N(90, 1500)
 	calls, progs := 0, 0
+	oneShotIsolation(c)
 	for k := 0; k < nExpr; k++ {
 		var t *GT
 		if k%5 == 4 {
@@ -612,4 +613,79 @@ func closedTree(r *Rand, depth int) *GT {
 		}
 	}
 	return gop(name, ch...)
+}
+
+// oneShotIsolation: the one-shot helper Eval(source, values) evaluates with the values and operators of ITS call: the same
+// source evaluated again - sequentially and from many goroutines - with other variable values and other operator
+// closures under the same names gives each caller its own answer.
+func oneShotIsolation(c *RunCtx) {
+	srcs := []string{"(+ (quota x) y)", "(if (> (quota x) 50) \"over\" \"ok\")", "(and (= (quota x) (quota x)) (< y (quota y)))"}
+	want := func(src string, k, x, y int64) interface{} {
+		q := func(v int64) int64 { return v + 100*k }
+		switch src {
+		case srcs[0]:
+			return q(x) + y
+		case srcs[1]:
+			if q(x) > 50 {
+				return "over"
+			}
+			return "ok"
+		default:
+			return y < q(y)
+		}
+	}
+	call := func(src string, k, x, y int64) (res string) {
+		defer func() {
+			if p := recover(); p != nil {
+				res = fmt.Sprintf("panic: %v", p)
+			}
+		}()
+		vals := map[string]interface{}{"x": x, "y": y,
+			"quota": func(_ *eval.Ctx, ps []eval.Value) (eval.Value, error) { return ps[0].(int64) + 100*k, nil }}
+		v, err := eval.Eval(src, vals)
+		if err != nil {
+			return "error: " + err.Error()
+		}
+		return fmt.Sprintf("%T %v", v, v)
+	}
+	bad := func(how, src string, k, x, y int64, got string) {
+		c.Direct = append(c.Direct, DirectViolation{What: "the one-shot Eval(source, values) helper answered with another call's values or operators (" + how + ")", Sig: "c07-one-shot",
+			Sample: map[string]interface{}{"source": src, "k": k, "x": x, "y": y, "got": got, "want": fmt.Sprintf("%T %v", want(src, k, x, y), want(src, k, x, y))}})
+	}
+	for _, src := range srcs {
+		for k := int64(0); k < 4; k++ {
+			x, y := 10*k+3, 7-k
+			c.ExploreEvals++
+			if got := call(src, k, x, y); got != fmt.Sprintf("%T %v", want(src, k, x, y), want(src, k, x, y)) {
+				bad("sequential calls", src, k, x, y, got)
+				return
+			}
+		}
+		var wg sync.WaitGroup
+		var mu sync.Mutex
+		failed := false
+		for g := 0; g < 16; g++ {
+			wg.Add(1)
+			go func(g int64) {
+				defer wg.Done()
+				for i := int64(0); i < 8; i++ {
+					k, x, y := (g+i)%5, g*3+i, i-g
+					if got := call(src, k, x, y); got != fmt.Sprintf("%T %v", want(src, k, x, y), want(src, k, x, y)) {
+						mu.Lock()
+						if !failed {
+							failed = true
+							bad("concurrent calls", src, k, x, y, got)
+						}
+						mu.Unlock()
+					}
+				}
+			}(int64(g))
+		}
+		wg.Wait()
+		c.ExploreEvals += 128
+		if failed {
+			return
+		}
+	}
+	c.ExploreHist["one-shot-helper"] += 3
 }
